@@ -2547,6 +2547,17 @@ class ResetIndex(Elemwise):
                     isinstance(d(), Projection) and d().operand("columns") == col
                     for d in dependents[self._name]
                 ):
+                    columns = list(self._meta.columns)
+                    if (
+                        col != columns[-1]
+                        or columns.count(col) > 1
+                        or col != self.frame._meta.name
+                    ):
+                        # reset_index(drop=True) only yields the values under the
+                        # name of the series: col is a column made from the index
+                        # ("level_0", one level of several) or the values are
+                        # called differently (0 for a series without a name)
+                        return
                     return type(self)(self.frame, True, self.name)
                 return
             result = plain_column_projection(self, parent, dependents)
